@@ -697,6 +697,8 @@ def tagged_specs(draw, field_types: st.SearchStrategy[t.Any]) -> t.Any:
     shared = draw(st.lists(st.tuples(st.sampled_from(['x', 'y', 'val']), field_types), max_size=2, unique_by=lambda p: p[0]))
     for i in range(nvar):
         fields: t.List[t.Dict[str, t.Any]] = [{'name': tag, 'type': ('lit', (vals[i],)), 'default': ['value', vals[i]]}]
+        if draw(st.integers(0, 5)) == 5:
+            fields[0]['exclude'] = True     # the tag is not part of the variant's own output: the union has to write it
         for (fname, ty) in shared:
             if draw(st.integers(0, 3)) > 0:
                 fs: t.Dict[str, t.Any] = {'name': fname, 'type': ty}
